@@ -185,7 +185,7 @@ def run(tier="quick", seed=0, replay=None):
         print(open(replay).read())
         return 1
     core.lean_stage(chk, "C19")
-    core.soft_bridge(chk, props=("GenTree",))
+    core.soft_bridge(chk, props=("GenTree", "GenTreeImputer"))
     from harness import cover
     from harness import fingerprint
     fingerprint.direct(chk, ['ixai/storage/tree_storage.py', 'ixai/imputer/tree_imputer.py'])
